@@ -269,14 +269,6 @@ def handle (toks : List String) : String :=
         | some (P, g) => "P=" ++ showMat showFix80 P.toRows ++ " grid=" ++ showList showFix80 g
       | _, _, _, _, _ => "bad-op"
     | _, _ => "bad-op"
-  | "rouwmat" :: r =>
-    -- exact `row_build_mat(n, p, q)` for rational p, q (general p ≠ q)
-    match kvNat r "n", kvRat r "p", kvRat r "q" with
-    | some n, some p, some q =>
-      match rowBuildMat n p q with
-      | none => "ERR:ValueError"
-      | some P => showMat showRat P.toRows
-    | _, _, _ => "bad-op"
   | "tauchen_args" :: r =>
     match kvNat r "n", kvFloat r "rho", kvFloat r "sigma", kvNat r "nstd" with
     | some n, some rho, some sigma, some nstd =>
